@@ -42,17 +42,6 @@ def stAgree (c : XRat → XRat → Bool) (m i : St) : Bool :=
   all2 i.S i.A (fun s a => c (get2 m.R s a) (get2 i.R s a)) &&
   all3 i.A i.S i.O (fun a s o => c (get3 m.Om a s o) (get3 i.Om a s o))
 
-def inUnitB (d : XRat) : Bool := match d with
-  | .fin q => decide (0 < q) && decide (q ≤ 1)
-  | _ => false
-
-/-- property clause for one row: finite entries in [-tol, 1+tol], sum within `slack` of one -/
-def rowDistB (slack : Rat) (row : List XRat) : Bool :=
-  row.all (fun v => match v with | .fin q => decide (-tol ≤ q) && decide (q ≤ 1 + tol) | _ => false) &&
-  (match sumX row with
-   | .fin s => decide (absQ (s - 1) ≤ slack)
-   | _ => false)
-
 /-- slack used by the property clause: the library tolerance plus 1e-9 for double rounding of the sum -/
 def slack : Rat := tol + eps
 
